@@ -1,6 +1,9 @@
 package main
 
 import (
+	"unicode"
+	"unicode/utf8"
+
 	"bytes"
 	"fmt"
 	"os"
@@ -186,6 +189,41 @@ func init() {
 		})
 		c.Sample("-a always,exit -F arch=b64 -S open -F auid>=1000 -k k => ToCommandLine => Parse+Build => identical bytes => same text")
 	}
+	gens["c07-big"] = func(c *enumx.Ctx) {
+		for _, l := range bigRuleLines() {
+			if !c.Mine() {
+				continue
+			}
+			roundTrip(c, l, "big", "")
+		}
+		c.Sample("-a always,exit -S 2 -F dir=/aaa...(4000) -F exe=/bbb...(4000) => listed text re-encodes to the same 9 KiB rule")
+	}
+	gens["c07-runes"] = func(c *enumx.Ctx) {
+		// multi-byte text inside string values and keys (invisible characters, letters, malformed
+		// UTF-8); white space and control bytes are outside the stated domain
+		for _, r := range enumx.HostileRunes {
+			skip := false
+			for _, ch := range r {
+				if unicode.IsSpace(ch) || (ch < 0x20 && ch != utf8.RuneError) || ch == 0x7f {
+					skip = true
+				}
+			}
+			if skip || strings.ContainsAny(r, "\x00") {
+				continue
+			}
+			for _, l := range []string{
+				"-a always,exit -S 2 -F exe=/opt/a" + r + "b -k k",
+				"-a always,exit -F subj_user=u" + r + " -F auid>=1000",
+				"-a never,exit -S open -F uid=0 -k " + r + "key",
+				"-a always,exit -F dir=/srv/" + r + r + "/x -k a" + r + "b -k c",
+			} {
+				if !c.Mine() {
+					continue
+				}
+				roundTrip(c, l, "runes", "")
+			}
+		}
+	}
 	gens["c07-watches"] = func(c *enumx.Ctx) {
 		dir, cleanup := scratch()
 		defer cleanup()
@@ -228,6 +266,35 @@ func init() {
 			}
 		}
 	}
+}
+
+// bigRuleLines: rules that carry a LOT of string data in total while every single string stays
+// within what Build allows: k string-valued filters of equal length L (+ a maximal key).  Limits
+// on the whole rule (message size 8970, page size, 64 KiB) are crossed by sums, not by one string.
+func bigRuleLines() []string {
+	fields := []string{"dir", "exe", "subj_user", "subj_role", "subj_type", "obj_user", "obj_role", "obj_type"}
+	var out []string
+	for k := 1; k <= len(fields); k++ {
+		for _, L := range []int{255, 256, 1000, 1500, 2000, 2700, 3000, 4000, 4095, 4096} {
+			for _, key := range []int{0, 256} {
+				var p []string
+				for i := 0; i < k; i++ {
+					v := "/" + strings.Repeat(string(rune('a'+i)), L-1)
+					op := "="
+					if i%3 == 2 {
+						op = "!="
+					}
+					p = append(p, "-F "+fields[i]+op+v)
+				}
+				line := "-a always,exit -S 2 " + strings.Join(p, " ")
+				if key > 0 {
+					line += " -k " + strings.Repeat("k", key)
+				}
+				out = append(out, line)
+			}
+		}
+	}
+	return out
 }
 
 func syscallDetail(s spec) string {
